@@ -458,6 +458,24 @@ def execute(case):
     info = {}
     with World(role=case["role"], apps=apps, watchdog=5, max_steps=1500000) as w:
         run = Run(case, w)
+        # observed at every scheduling step: once the node has been out of Closed, Closed is not reported again while the
+        # connection's socket is still open ("Closed" implies the transport has been released)
+        left, early = [False], []
+
+        def hook(cur, kind):
+            if w.d is None:
+                return
+            st_now = w.state()
+            s = w.sock
+            if st_now != "Closed":
+                left[0] = True
+            elif left[0]:
+                if s is not None and not s.closed:
+                    if not early:
+                        early.append((kind, cur.name, s.fd))
+                else:
+                    left[0] = False
+        w.sched.step_hook = hook
         run.start()
         run.check_state("start", {"Closed"})
         consumer_started = [False]
@@ -480,6 +498,10 @@ def execute(case):
             if len(run.vs) >= 3:
                 break
         run.final_written = run.written()
+        w.sched.step_hook = None
+        if early:
+            run.vs.append(V("Closed is reported only once the connection's socket has been released", f"closed-reported-before-release/{case['role']}",
+                            f"at a '{early[0][0]}' point of {early[0][1]}: state Closed while fd {early[0][2]} was still open"))
         info.update(steps=w.sched.steps, visited=sorted(run.visited), skipped=run.skipped, applied=[e["e"] for e in run.applied])
         world = w
     if world.unreaped:
